@@ -55,6 +55,15 @@ func runC15(c *core.Ctx) *core.Outcome {
 	code = append(code, app.Inst{Op: app.LOAD, A: sa, N: size})
 	code = append(code, app.Inst{Op: app.MAP, A: sa})
 	code = append(code, app.Inst{Op: app.RELOAD, A: sa})
+	// a second symbol whose name begins with the first one's: an instruction cut inside the longer name
+	// leaves bytes that spell a symbol that exists
+	sLong := ""
+	if t.Chance(1, 2) {
+		sLong = sa + []string{"zz", "_2", "q"}[t.Int(3)]
+		code = append(code, app.Inst{Op: app.LOAD, A: sLong, N: 40})
+		code = append(code, app.Inst{Op: app.MAP, A: sLong})
+		o.Probes["symbol_name_that_extends_another"]++
+	}
 	code = append(code, app.Inst{Op: app.MOUT, A: la, B: "0"})
 	code = append(code, app.Inst{Op: app.MNEXT, A: lb, B: selN})
 	code = append(code, app.Inst{Op: app.MPREV, A: lc, B: selP})
@@ -96,6 +105,9 @@ func runC15(c *core.Ctx) *core.Outcome {
 		o.Probes["external_failure_before_the_damage"]++
 	}
 	a.Ext = []*app.ExtSym{{Name: sa, Size: size, Script: script}}
+	if sLong != "" {
+		a.Ext = append(a.Ext, &app.ExtSym{Name: sLong, Size: 40, Script: []app.ExtBehav{{Len: 3}}})
+	}
 	a.Nodes = append(a.Nodes, &app.Node{Name: "root", Code: code, Tpl: map[string]string{"": "@root| " + sa + "=[{{." + sa + "}}]$"}})
 	for _, n := range []string{"nb", "nc"} {
 		a.Nodes = append(a.Nodes, &app.Node{Name: n, Code: []app.Inst{{Op: app.HALT}, {Op: app.INCMP, A: "_", B: "*"}}, Tpl: map[string]string{"": "@" + n + "|$"}})
